@@ -456,6 +456,105 @@ def rule_guard(ctx):
     ctx.units["C17.overwrite_sites"] = sites
 
 
+def refused_send_scenarios(repo):
+    """three send-side histories on AxolotlSendLayer, abstractly executed; in each the key fetch (getKeysFor) reports an
+    untrusted identity for one jid.  -> {scenario: (ok, text, key fetch reached?)} or None when the execution cannot be followed"""
+    from ..absint import Obj, _Raise, C_NONE, NeedAtom, Budget, DomainGrew, enumerate_cells, flat_effects, Node
+    from ..repo import ClassInfo
+    from .c03 import mk_layer
+    exc_cls = [c for c in repo.by_simple.get("UntrustedIdentityException", []) if c.relpath.startswith("yowsup/axolotl/")]
+    if not exc_cls:
+        return None
+    GOOD, BAD, OWN, GROUP = "111@s.whatsapp.net", "666@s.whatsapp.net", "999@s.whatsapp.net", "123-456@g.us"
+    gstub = ast.parse("class G:\n    def getParticipants(self):\n        return {%r: None, %r: None, %r: None}\n" % (GOOD, BAD, OWN)).body[0]
+
+    def message(to):
+        n = Node(("c", "message"), None)
+        n.attrs.update({"id": ("c", "MSG-1"), "to": ("c", to), "type": ("c", "text")})
+        p = Node(("c", "proto"), None)
+        p.attrs.update({"mediatype": C_NONE})
+        p.data = ("c", b"\x0a\x02hi")
+        n.children.append(("one", p))
+        return n
+
+    def run(cell, domains, scenario):
+        fetches = []
+
+        def keys_hook(itp, recv, args, kwargs, env, depth, e):
+            cb = args[1] if len(args) > 1 else kwargs.get("resultClbk")
+            jl = itp.iterate(itp.force(args[0])) or []
+            asked = [x[1] for x in jl if x[0] == "c"]
+            fetches.append(asked)
+            okj = [j for j in asked if j != BAD]
+            errs = {j: ("obj", Obj(exc_cls[0])) for j in asked if j == BAD}
+            itp.apply(cb, [("list", [("c", j) for j in okj]), ("dict", errs)], {}, env, depth, e)
+            return C_NONE
+
+        def sendiq(itp, recv, a, k, env, d, e):
+            # the group-info request is answered at once
+            if len(a) > 1 and a[1] != C_NONE:
+                itp.apply(a[1], [("ext", "groupInfoResult", []), a[0]], {}, env, d, e)
+            return C_NONE
+        stubcls = ClassInfo(repo.cls(SEND, "AxolotlSendLayer").module, gstub)
+        stubcls.bases = []
+        stubcls._mro = [stubcls]
+
+        def from_node(itp, c, a, k, env, d, e):
+            if c.name == "InfoGroupsResultIqProtocolEntity":
+                return ("obj", Obj(stubcls))
+            return None
+        hooks = {"method:getKeysFor": keys_hook, "method:_sendIq": sendiq, "classmethod:fromProtocolTreeNode": from_node,
+                 "ext:manager.session_exists": lambda *a: ("c", False), "ext:*.isEmpty": lambda *a: ("c", True), "anymethod:isEmpty": lambda *a: ("c", True),
+                 "ext:*.getUsername": lambda *a: ("c", OWN)}
+        it, layer, cls = mk_layer(repo, SEND, "AxolotlSendLayer", cell, domains, hooks)
+        it.pure_depth = 0
+        env = {"@module": cls.module, "@owner": cls}
+        raised = None
+        try:
+            if scenario == "contact":
+                it.method_call(layer, "send", [("node", message(BAD))], {}, env, 0, None)
+            elif scenario == "group":
+                it.method_call(layer, "send", [("node", message(GROUP))], {}, env, 0, None)
+            else:
+                layer[1].fields["sentQueue"] = ("list", [("node", message(BAD))])
+                r = Node(("c", "receipt"), None)
+                r.attrs.update({"id": ("c", "MSG-1"), "from": ("c", BAD), "participant": C_NONE, "type": ("c", "retry"), "t": ("c", "1")})
+                rn = Node(("c", "retry"), None)
+                rn.attrs.update({"count": ("c", "1"), "id": ("c", "MSG-1"), "t": ("c", "1"), "v": ("c", "1")})
+                r.children.append(("one", rn))
+                reg = Node(("c", "registration"), None)
+                reg.data = ("c", b"\x00\x00\x00\x01")
+                r.children.append(("one", reg))
+                it.method_call(layer, "receive", [("node", r)], {}, env, 0, None)
+        except _Raise as x:
+            raised = x.text
+        enc_for = []
+        for e in flat_effects(it.effects):
+            if e[0] == "CALL" and e[1] == "manager.encrypt" and e[2]:
+                enc_for.append(e[2][0][1] if e[2][0][0] == "c" else "?")
+        return {"fetches": fetches, "enc_for": enc_for, "raised": raised}, it
+    out = {}
+    names = {"contact": "a message to a contact whose identity is refused", "retry": "a retry receipt of a contact whose identity is refused", "group": "a group message, one member's identity refused"}
+    for scenario in ("contact", "retry", "group"):
+        try:
+            cells = enumerate_cells(lambda c, d, sc_=scenario: run(c, d, sc_), {}, max_cells=64)
+        except (NeedAtom, Budget, DomainGrew):
+            return None
+        bad, fetched = [], True
+        for cell, r in cells:
+            if not r["fetches"]:
+                fetched = False
+                bad.append("no key fetch%s" % (" (raises %s)" % r["raised"][:50] if r["raised"] else ""))
+                continue
+            refused = [x for x in r["enc_for"] if x in (BAD.split("@")[0], BAD, "?")]
+            if refused:
+                bad.append("after the key fetch reported the identity of %s as untrusted, the session cipher is still asked to encrypt for %s" % (BAD, sorted(set(refused))))
+            if scenario == "group" and GOOD.split("@")[0] not in r["enc_for"] and not r["raised"]:
+                pass        # whether the trusted member gets the key is C03's business
+        out[names[scenario]] = (not bad, "; ".join(sorted(set(bad))[:2]), fetched)
+    return out
+
+
 def rule_refuse(ctx):
     repo = ctx.repo
     # (a) create_session, abstractly executed with the library refusing the bundle: without auto-trust (flag False, or not
@@ -486,6 +585,18 @@ def rule_refuse(ctx):
         ctx.check("C17.refuse", res["autotrust_args"] == [("c", False), ("c", False)], wb, "create_session asked with the auto-trust property, default off",
                   "a jid must count as success only after create_session returned, and create_session must be given the auto-trust property (default off); it was given %s" % [show_v(x) for x in res["autotrust_args"]], "success recorded after the session was built")
     # (c) send-side callbacks: with errors present nothing is sent to a single recipient
+    sc = refused_send_scenarios(repo)
+    if sc is not None:
+        # decided by executing the send layer: a message to a contact, a retry receipt for a queued message and a message
+        # to a group whose sender key is new, each with the key fetch answering "identity refused" for one jid - what
+        # matters is for whom the session cipher is asked to encrypt afterwards
+        for name, (ok, why, fetched) in sorted(sc.items()):
+            wsc = where(SEND, "AxolotlSendLayer", None)
+            if not fetched:
+                ctx.undecided("C17.refuse", wsc, name, "the scenario did not reach a key fetch: %s" % why)
+            else:
+                ctx.check("C17.refuse", ok, wsc, name, why, "nothing is encrypted for a jid whose identity was refused")
+        return
     snd = repo.cls(SEND, "AxolotlSendLayer")
     n_cb = 0
     for fname, fn in snd.methods.items():
@@ -645,7 +756,7 @@ def rule_persist(ctx):
 def run(ctx):
     ctx.rule("C17.trust", "trusted iff unknown or equal to the stored key of that recipient", floor=4)
     ctx.rule("C17.guard", "pin overwrites are control-dependent on the auto-trust switch (default off)", floor=4)
-    ctx.rule("C17.refuse", "refuse paths without auto-trust", floor=8)
+    ctx.rule("C17.refuse", "refuse paths without auto-trust", floor=7)
     ctx.rule("C17.author", "decryption (and with it the identity check) uses the author's session: participant when present (C03.once adopted)", floor=4)
     ctx.rule("C17.persist", "pin committed and read back by the same key", floor=3)
     ctx.rule("C17.auto", "auto-trust stores the presented key and resumes", floor=4)
